@@ -352,6 +352,9 @@ func Sleep(req *http.Request, d time.Duration) error {
 
 // Respond builds the response for call from spec, mints a token and records its ghost entry.
 func (o *Origin) Respond(call *Call, s RespSpec) *http.Response {
+	if s.Delay > 0 && call.Req != nil {
+		_ = Sleep(call.Req, s.Delay) // virtual latency (cut short when the request's context ends)
+	}
 	hdr := http.Header{}
 	for _, kv := range s.H {
 		k := kv[0]
